@@ -56,7 +56,9 @@ def lookup (table : List Path) (root : String) (fams : List Nat) (exit : Exit) :
   let paths := table.filter fun p => p.root == root
   if paths.isEmpty then some []
   else
-    let cands := paths.filter fun p => p.fams == fams
+    let exact := paths.filter fun p => p.fams == fams
+    -- no path carries these family tags (the conditions no longer name the request's flags): by the number of selections
+    let cands := if exact.isEmpty then paths.filter (fun p => (p.ops.filter (· == .select)).length == fams.length) else exact
     let straight := dedupOps ((cands.filter (!·.early)).map (·.ops))
     let early := dedupOps ((cands.filter (·.early)).map (·.ops))
     let (mine, other) := if exit == .ok then (straight, early) else (early, straight)
